@@ -146,6 +146,26 @@ func ifaceOf(v reflect.Value) any {
 	return fmt.Sprint(v)
 }
 
+func errKind(err error) string {
+	c := errClass(err)
+	if i := strings.IndexAny(c, "@:"); i >= 0 {
+		return c[:i]
+	}
+	return c
+}
+
+// sameOutcome is sameResult at the granularity the irrelevance clause is demanded at:
+// outputs, decoded values, verdicts and the kind of error (nil / syntactic / semantic / other),
+// not the position details carried by an error.
+func sameOutcome(a, b *result) (string, bool) {
+	if ka, kb := errKind(a.err), errKind(b.err); ka != kb {
+		return fmt.Sprintf("error kind %s vs %s (%v | %v)", ka, kb, a.err, b.err), false
+	}
+	a2, b2 := *a, *b
+	a2.err, b2.err = nil, nil
+	return sameResult(&a2, &b2)
+}
+
 func sameResult(a, b *result) (string, bool) {
 	if ca, cb := errClass(a.err), errClass(b.err); ca != cb {
 		return fmt.Sprintf("error %s vs %s (%v | %v)", ca, cb, a.err, b.err), false
@@ -430,6 +450,12 @@ func runBehave(w *run.W, a *behaveArgs) {
 	r := w.Rand("behave", a.Kind, a.Batch)
 	for i := 0; i < a.N; i++ {
 		w.Eval(1)
+		guard(w, func() { behaveOne(w, a, r) })
+	}
+}
+
+func behaveOne(w *run.W, a *behaveArgs, r *rand.Rand) {
+	{
 		switch a.Kind {
 		case "spell-marshal":
 			t, v := randTyped(r)
@@ -487,10 +513,13 @@ func runBehave(w *run.W, a *behaveArgs) {
 			base := randSeq(r, nil, 0, 4)
 			with := insertIrrelevant(r, base, irrelevantPool["marshal"])
 			ra, rb := opMarshal(in, buildOpts(base)), opMarshal(in, buildOpts(with))
-			if d, ok := sameResult(ra, rb); !ok {
+			if d, ok := sameOutcome(ra, rb); !ok {
 				w.Violate("irrelevant-option-matters", map[string]string{"op": "Marshal"}, "Marshal(%v of type %v): options %s vs %s (only unmarshal-side options added): %s", v, t, seqName(base), seqName(with), d)
 			}
 			w.Count("irrelevance_checks", 1)
+			if errClass(ra.err) != errClass(rb.err) {
+				w.Count("observed_irrelevant_option_changes_error_position", 1)
+			}
 			if base0 := opMarshal(in, nil); len(base) > 0 && !bytes.Equal(base0.out, ra.out) {
 				w.Count("irrelevance_option_sensitive_bases", 1) // the base options do matter for this value
 			}
@@ -504,10 +533,13 @@ func runBehave(w *run.W, a *behaveArgs) {
 			base := randSeq(r, nil, 0, 4)
 			with := insertIrrelevant(r, base, irrelevantPool["unmarshal"])
 			ra, rb := opUnmarshal(t, text, buildOpts(base)), opUnmarshal(t, text, buildOpts(with))
-			if d, ok := sameResult(ra, rb); !ok {
+			if d, ok := sameOutcome(ra, rb); !ok {
 				w.Violate("irrelevant-option-matters", map[string]string{"op": "Unmarshal"}, "Unmarshal(%q into %v): options %s vs %s (only marshal/encode-side options added): %s", text, t, seqName(base), seqName(with), d)
 			}
 			w.Count("irrelevance_checks", 1)
+			if errClass(ra.err) != errClass(rb.err) {
+				w.Count("observed_irrelevant_option_changes_error_position", 1)
+			}
 			if r0 := opUnmarshal(t, text, nil); len(base) > 0 {
 				if _, same := sameResult(r0, ra); !same {
 					w.Count("irrelevance_option_sensitive_bases", 1)
@@ -520,10 +552,16 @@ func runBehave(w *run.W, a *behaveArgs) {
 			for _, op := range textOps {
 				with := insertIrrelevant(r, base, irrelevantPool[op.scope])
 				ra, rb := op.fn(text, buildOpts(base)), op.fn(text, buildOpts(with))
-				if d, ok := sameResult(ra, rb); !ok {
+				if d, ok := sameOutcome(ra, rb); !ok {
 					w.Violate("irrelevant-option-matters", map[string]string{"op": op.name}, "%s(%q): options %s vs %s (only options documented as ignored added): %s", op.name, text, seqName(base), seqName(with), d)
 				}
 				w.Count("irrelevance_checks", 1)
+				if errClass(ra.err) != errClass(rb.err) {
+					w.Count("observed_irrelevant_option_changes_error_position", 1)
+				}
+			if errClass(ra.err) != errClass(rb.err) {
+				w.Count("observed_irrelevant_option_changes_error_position", 1)
+			}
 				if len(base) > 0 {
 					if _, same := sameResult(op.fn(text, nil), ra); !same {
 						w.Count("irrelevance_option_sensitive_bases", 1)
